@@ -208,3 +208,10 @@ def histogram(part, c):
 
 
 PARTS = [Part("faults", "c19", "blocksafety", gen, project=base.project, nontrivial=nontrivial, describe=describe)]
+
+# ---- consumer half (Model/ConsumerBlock.v): theorems in Props/C19Consumer.v, part "consumer" in harness/c19c/part.py
+EXTRA_PROPS = ["C19Consumer"]
+import importlib.util as _ilu, os as _os
+_spec = _ilu.spec_from_file_location("c19c_part", _os.path.join(_os.path.dirname(_os.path.abspath(__file__)), "..", "..", "harness", "c19c", "part.py"))
+_c19c = _ilu.module_from_spec(_spec); _spec.loader.exec_module(_c19c)
+PARTS.append(_c19c.PART)
